@@ -11,7 +11,7 @@ import (
 
 func init() {
 	register(&Def{ID: "C07", Engine: "E1", Run: runC07,
-		Rule: "cross product: every arithmetic (8), comparison (6) and unary (14 + Clamp) operation x option mode {safe, unsafe, reuse (fresh contiguous / sliced view / step-sliced view / == operand a / == operand b / other shape same size / wrong size), incr (contiguous / sliced view)} x operand form x operand layouts (L5 each) x element type representatives x op-matrix shapes; " +
+		Rule: "cross product: every arithmetic (8), comparison (6) and unary (14 + Clamp) operation x option mode {safe, unsafe, reuse (fresh contiguous / sliced view / step-sliced view / == operand a / == operand b / other shape same size / wrong size), incr (contiguous / sliced view / == operand a / == operand b)} x {two operands, the same tensor as both operands} x operand form x operand layouts (L5 each) x element type representatives x op-matrix shapes; " +
 			"oracle: values = safe-mode model values (incr: destination + result), returned tensor identity, every non-destination tensor unchanged (root + metadata), destination's parent untouched outside the destination's image. non-trivial = >=1 element",
 		Assume: []string{"as C06; a reuse/incr destination that the library refuses without touching anything is reported under its own kind (unexpected-refusal[dest]) and triaged separately from wrong values"}})
 }
